@@ -14,16 +14,7 @@ theorem skel_WritePack : skel.WritePack = Packs.Skeletons.WritePack := rfl
 theorem skel_ReadPack : skel.ReadPack = Packs.Skeletons.ReadPack := rfl
 theorem skel_ToBytesPack : skel.ToBytesPack = Packs.Skeletons.ToBytesPack := rfl
 theorem skel_ToPack : skel.ToPack = Packs.Skeletons.ToPack := rfl
-theorem skel_EventPack_Write : skel.EventPack_Write = Packs.Skeletons.EventPack_Write := rfl
-theorem skel_EventPack_Read : skel.EventPack_Read = Packs.Skeletons.EventPack_Read := rfl
-theorem skel_TagCountPack_Write : skel.TagCountPack_Write = Packs.Skeletons.TagCountPack_Write := rfl
-theorem skel_TagLogPack_Write : skel.TagLogPack_Write = Packs.Skeletons.TagLogPack_Write := rfl
-theorem skel_LogSinkPack_Write : skel.LogSinkPack_Write = Packs.Skeletons.LogSinkPack_Write := rfl
 theorem skel_LogSinkPack_ResetTagHash : skel.LogSinkPack_ResetTagHash = Packs.Skeletons.LogSinkPack_ResetTagHash := rfl
-theorem skel_ParamPack_Write : skel.ParamPack_Write = Packs.Skeletons.ParamPack_Write := rfl
-theorem skel_ParamPack_Read : skel.ParamPack_Read = Packs.Skeletons.ParamPack_Read := rfl
-theorem skel_ExtensionPack_Write : skel.ExtensionPack_Write = Packs.Skeletons.ExtensionPack_Write := rfl
-theorem skel_ExtensionPack_Read : skel.ExtensionPack_Read = Packs.Skeletons.ExtensionPack_Read := rfl
 theorem skel_toHeaderBytes : skel.toHeaderBytes = Packs.Skeletons.toHeaderBytes := rfl
 theorem skel_toHeaderObject : skel.toHeaderObject = Packs.Skeletons.toHeaderObject := rfl
 theorem skel_CompositePack_Write : skel.CompositePack_Write = Packs.Skeletons.CompositePack_Write := rfl
@@ -32,15 +23,11 @@ theorem skel_HitMapPack1_Write : skel.HitMapPack1_Write = Packs.Skeletons.HitMap
 theorem skel_HitMapPack1_Read : skel.HitMapPack1_Read = Packs.Skeletons.HitMapPack1_Read := rfl
 theorem skel_ProfilePack_Write : skel.ProfilePack_Write = Packs.Skeletons.ProfilePack_Write := rfl
 theorem skel_ProfilePack_Read : skel.ProfilePack_Read = Packs.Skeletons.ProfilePack_Read := rfl
-theorem skel_SMBasePack_Write : skel.SMBasePack_Write = Packs.Skeletons.SMBasePack_Write := rfl
-theorem skel_SMBasePack_Read : skel.SMBasePack_Read = Packs.Skeletons.SMBasePack_Read := rfl
 theorem skel_StatGeneralPack_Write : skel.StatGeneralPack_Write = Packs.Skeletons.StatGeneralPack_Write := rfl
 theorem skel_StatGeneralPack_Read : skel.StatGeneralPack_Read = Packs.Skeletons.StatGeneralPack_Read := rfl
 theorem skel_StatGeneralPack_writeTable : skel.StatGeneralPack_writeTable = Packs.Skeletons.StatGeneralPack_writeTable := rfl
 theorem skel_StatGeneralPack_readTable : skel.StatGeneralPack_readTable = Packs.Skeletons.StatGeneralPack_readTable := rfl
 theorem skel_StatGeneralPack_unpack : skel.StatGeneralPack_unpack = Packs.Skeletons.StatGeneralPack_unpack := rfl
-theorem skel_CounterPack1_Write : skel.CounterPack1_Write = Packs.Skeletons.CounterPack1_Write := rfl
-theorem skel_CounterPack1_Read : skel.CounterPack1_Read = Packs.Skeletons.CounterPack1_Read := rfl
 theorem skel_CounterPack1_writeShortArray : skel.CounterPack1_writeShortArray = Packs.Skeletons.CounterPack1_writeShortArray := rfl
 theorem skel_CounterPack1_readShortArray : skel.CounterPack1_readShortArray = Packs.Skeletons.CounterPack1_readShortArray := rfl
 theorem skel_CounterPack1_ReadDropMap : skel.CounterPack1_ReadDropMap = Packs.Skeletons.CounterPack1_ReadDropMap := rfl
@@ -84,5 +71,16 @@ theorem skel_StatServicePack_WriteRec : skel.StatServicePack_WriteRec = Packs.Sk
 theorem skel_ReadRec : skel.ReadRec = Packs.Skeletons.ReadRec := rfl
 theorem skel_SMDownCheckPack_SetRecords : skel.SMDownCheckPack_SetRecords = Packs.Skeletons.SMDownCheckPack_SetRecords := rfl
 theorem skel_SMDownCheckPack_GetRecords : skel.SMDownCheckPack_GetRecords = Packs.Skeletons.SMDownCheckPack_GetRecords := rfl
+theorem gaps_CounterPack1_w : CounterPack1.wGaps = Packs.Skeletons.CounterPack1_wGaps := rfl
+theorem gaps_CounterPack1_r : CounterPack1.rGaps = Packs.Skeletons.CounterPack1_rGaps := rfl
+theorem gaps_TagCountPack_w : TagCountPack.wGaps = Packs.Skeletons.TagCountPack_wGaps := rfl
+theorem gaps_TagLogPack_w : TagLogPack.wGaps = Packs.Skeletons.TagLogPack_wGaps := rfl
+theorem gaps_LogSinkPack_w : LogSinkPack.wGaps = Packs.Skeletons.LogSinkPack_wGaps := rfl
+theorem gaps_ParamPack_w : ParamPack.wGaps = Packs.Skeletons.ParamPack_wGaps := rfl
+theorem gaps_ParamPack_r : ParamPack.rGaps = Packs.Skeletons.ParamPack_rGaps := rfl
+theorem gaps_ExtensionPack_w : ExtensionPack.wGaps = Packs.Skeletons.ExtensionPack_wGaps := rfl
+theorem gaps_ExtensionPack_r : ExtensionPack.rGaps = Packs.Skeletons.ExtensionPack_rGaps := rfl
+theorem gaps_EventPack_w : EventPack.wGaps = Packs.Skeletons.EventPack_wGaps := rfl
+theorem gaps_EventPack_r : EventPack.rGaps = Packs.Skeletons.EventPack_rGaps := rfl
 
 end C03GenSkel
